@@ -1,10 +1,10 @@
 package sim
 
 import (
-	"os"
 	"crypto/sha256"
 	"encoding/hex"
 	"fmt"
+	"os"
 	"runtime"
 	"runtime/debug"
 	"sort"
@@ -18,9 +18,9 @@ import (
 // Violation is one oracle failure.
 type Violation struct {
 	Prop   string `json:"prop"`
-	Clause string `json:"clause"`         // oracle clause, stable identifier (the violation class)
-	Msg    string `json:"msg"`            // human readable, includes event numbers
-	Sig    string `json:"sig,omitempty"`  // causal signature used to match known findings
+	Clause string `json:"clause"`          // oracle clause, stable identifier (the violation class)
+	Msg    string `json:"msg"`             // human readable, includes event numbers
+	Sig    string `json:"sig,omitempty"`   // causal signature used to match known findings
 	Known  string `json:"known,omitempty"` // id of the known finding it matches, if any
 }
 
@@ -38,16 +38,25 @@ type RunResult struct {
 	Virtual time.Duration
 	Viol    []Violation
 	Probes  map[string]int // rare-condition probes and fault counters
+	ix      *stepIdx
+}
+
+// stepIdx returns the (memoised) index of the step events of the run's history.
+func (r *RunResult) stepIdx() *stepIdx {
+	if r.ix == nil {
+		r.ix = stepIndex(r.H)
+	}
+	return r.ix
 }
 
 // Prop is the per-property plug-in.
 type Prop struct {
 	ID         string
 	Gen        func(seed int64, tier string) *Scenario
-	Post       func(w *World)                    // in-bubble, after the schedule ended, hooks off
-	Check      func(r *RunResult) []Violation    // history oracles
-	Nontrivial func(r *RunResult) bool           // rule for distinct_nontrivial
-	Rule       string                            // the rule in words
+	Post       func(w *World)                 // in-bubble, after the schedule ended, hooks off
+	Check      func(r *RunResult) []Violation // history oracles
+	Nontrivial func(r *RunResult) bool        // rule for distinct_nontrivial
+	Rule       string                         // the rule in words
 	Real       []string
 	Stub       []string
 	Assume     []string
